@@ -84,7 +84,15 @@ type Recorder struct {
 	Log      []Entry
 	CloseErr error
 	NoPoints bool // sequential checks: do not create scheduling points
+	// environment deviations and re-entrant reporters (all nil / zero by default):
+	PanicNextDelivery bool                                            // the next counter/gauge/timer/histogram delivery is recorded and then panics (once)
+	PanicOnAlloc      string                                          // Allocate* of this metric name panics (every time), before anything is recorded
+	OnFlush           func()                                          // called by Flush after it has been recorded (a reporter that reports on itself)
+	OnAlloc           func(kind, name string, tags map[string]string) // called by Allocate* after it has been recorded
 }
+
+// ReporterPanic is what a deliberately failing recorder panics with.
+type ReporterPanic struct{ What string }
 
 func copyTags(t map[string]string) map[string]string {
 	if t == nil {
@@ -109,11 +117,37 @@ func (r *Recorder) add(e Entry) {
 		}
 		e.Thread = rt.CurID()
 		r.Log = append(r.Log, e)
+		r.after(&e)
 		return
 	}
 	r.mu.Lock()
 	r.Log = append(r.Log, e)
 	r.mu.Unlock()
+	r.after(&e)
+}
+
+func (r *Recorder) after(e *Entry) {
+	switch e.Kind {
+	case "counter", "gauge", "timer", "hvalue", "hduration":
+		if r.PanicNextDelivery {
+			r.PanicNextDelivery = false
+			panic(ReporterPanic{"delivery " + e.String()})
+		}
+	case "flush":
+		if r.OnFlush != nil {
+			r.OnFlush()
+		}
+	case "alloc-counter", "alloc-gauge", "alloc-timer", "alloc-histogram":
+		if r.OnAlloc != nil {
+			r.OnAlloc(e.Kind[len("alloc-"):], e.Name, e.Tags)
+		}
+	}
+}
+
+func (r *Recorder) allocGuard(name string) {
+	if r.PanicOnAlloc != "" && name == r.PanicOnAlloc {
+		panic(ReporterPanic{"allocation of " + name})
+	}
 }
 
 // Mark appends a marker entry (e.g. "Close returned").
@@ -219,24 +253,28 @@ func (h cachedHist) DurationBucket(lo, hi time.Duration) tally.CachedHistogramBu
 }
 
 func (r *Recorder) AllocateCounter(name string, tags map[string]string) tally.CachedCount {
+	r.allocGuard(name)
 	t := copyTags(tags)
 	r.add(Entry{Kind: "alloc-counter", Name: name, Tags: t})
 	return cachedHandle{r, name, t}
 }
 
 func (r *Recorder) AllocateGauge(name string, tags map[string]string) tally.CachedGauge {
+	r.allocGuard(name)
 	t := copyTags(tags)
 	r.add(Entry{Kind: "alloc-gauge", Name: name, Tags: t})
 	return cachedHandle{r, name, t}
 }
 
 func (r *Recorder) AllocateTimer(name string, tags map[string]string) tally.CachedTimer {
+	r.allocGuard(name)
 	t := copyTags(tags)
 	r.add(Entry{Kind: "alloc-timer", Name: name, Tags: t})
 	return cachedHandle{r, name, t}
 }
 
 func (r *Recorder) AllocateHistogram(name string, tags map[string]string, buckets tally.Buckets) tally.CachedHistogram {
+	r.allocGuard(name)
 	t := copyTags(tags)
 	r.add(Entry{Kind: "alloc-histogram", Name: name, Tags: t, Note: fmt.Sprint(buckets)})
 	return cachedHist{cachedHandle{r, name, t}}
